@@ -250,6 +250,88 @@ fn run(ctx: &mut Ctx) {
             },
         );
     }
+    // classification does not depend on how much the tag holds: indexed framebuffers with palettes on both sides of the
+    // 16-bit byte-count boundary, and an ELF table of more than 2^16 headers
+    ctx.bound("large_structures", "indexed framebuffer tags holding exactly 1, 255, 256, 21845, 21846, 43690, 43691 and 65535 colours classify as indexed with that many colours; an ELF table of 65600 headers (40- and 64-byte layouts) whose types cycle through 24 raw values: header i is yielded with the class of its own type");
+    for colours in [1usize, 255, 256, 21845, 21846, 43690, 43691, 65535] {
+        ctx.leaf(
+            || J::obj().set("large_palette_colours", colours),
+            |ctx| {
+                ctx.state_direct();
+                ctx.nontrivial();
+                let size = 34 + 3 * colours;
+                let mut buf = vec![0u64; round8(size) / 8];
+                let bytes: &mut [u8] = unsafe { std::slice::from_raw_parts_mut(buf.as_mut_ptr() as *mut u8, round8(size)) };
+                for (i, b) in bytes.iter_mut().enumerate().skip(8) {
+                    *b = marker(i, 5);
+                }
+                wr32(bytes, 0, 8);
+                wr32(bytes, 4, size as u32);
+                bytes[29] = 0;
+                wr16(bytes, 32, colours as u16);
+                let r = ctx.call("FramebufferTag::buffer_type (large palette)", || {
+                    let tag = DynSizedStructure::<TagHeader>::ref_from_slice(&bytes[..]).unwrap().cast::<FramebufferTag>();
+                    match tag.buffer_type() {
+                        Ok(FramebufferType::Indexed { palette }) => Some(palette.len()),
+                        _ => None,
+                    }
+                });
+                match r {
+                    Out::Val(Some(n)) if n == colours => ctx.class("fbtype:large-indexed"),
+                    other => ctx.violation("c20/framebuffer-type/large-palette", || format!("indexed framebuffer tag holding exactly {} colours: classified as {:?} (Some(n) = indexed with n colours)", colours, other.val())),
+                }
+            },
+        );
+    }
+    for entsize in [40usize, 64] {
+        ctx.leaf(
+            || J::obj().set("large_elf_table_entry_size", entsize),
+            |ctx| {
+                ctx.state_direct();
+                ctx.nontrivial();
+                const N: usize = 65600;
+                const CYC: [u32; 24] = [1, 2, 3, 4, 5, 6, 7, 8, 9, 10, 11, 0, 12, 16, 0x5FFF_FFFF, 0x6000_0000, 0x6FFF_FFFF, 0x7000_0000, 0x7FFF_FFFF, 0x8000_0000, 7, 1, 8, 3];
+                let size = 20 + N * entsize;
+                let mut buf = vec![0u64; round8(size) / 8];
+                let bytes: &mut [u8] = unsafe { std::slice::from_raw_parts_mut(buf.as_mut_ptr() as *mut u8, round8(size)) };
+                wr32(bytes, 0, 9);
+                wr32(bytes, 4, size as u32);
+                wr32(bytes, 8, N as u32);
+                wr32(bytes, 12, entsize as u32);
+                wr32(bytes, 16, 2);
+                for i in 0..N {
+                    // type at +4; the address field carries the index (ELF32: +12, ELF64: +16)
+                    wr32(bytes, 20 + i * entsize + 4, CYC[i % 24]);
+                    wr32(bytes, 20 + i * entsize + if entsize == 40 { 12 } else { 16 }, i as u32);
+                }
+                let r = ctx.call("sections (large table)", || {
+                    let tag = DynSizedStructure::<TagHeader>::ref_from_slice(&bytes[..]).unwrap().cast::<ElfSectionsTag>();
+                    let mut bad: Option<String> = None;
+                    let mut n = 0usize;
+                    let mut want = (0..N).filter(|i| expected_elf(CYC[i % 24]).is_some());
+                    for s in tag.sections() {
+                        n += 1;
+                        let Some(i) = want.next() else {
+                            bad = bad.or(Some("more sections than in-use headers".into()));
+                            break;
+                        };
+                        if (s.start_address() as usize != i || s.section_type_raw() != CYC[i % 24] || Some(s.section_type()) != expected_elf(CYC[i % 24])) && bad.is_none() {
+                            bad = Some(format!("expected header #{} (raw type {:#x}), got the header with address field {} raw type {:#x} class {:?}", i, CYC[i % 24], s.start_address(), s.section_type_raw(), s.section_type()));
+                        }
+                    }
+                    if want.next().is_some() && bad.is_none() {
+                        bad = Some(format!("only {} sections yielded", n));
+                    }
+                    bad
+                });
+                match r {
+                    Out::Val(None) => ctx.class("elf-table:large"),
+                    Out::Val(Some(msg)) => ctx.violation("c20/elf-tables/large", || format!("table of 65600 headers of {} bytes: {}", entsize, msg)),
+                    Out::Panic => ctx.violation("c20/elf-tables/panic", || "sections() panicked on a table of 65600 headers".into()),
+                }
+            },
+        );
+    }
     // framebuffer type bytes through the boot information's getter: one tag, and two tags of which the first decides
     ctx.bound("framebuffer_getter", "all 256 type bytes on the only / on the first of two framebuffer tags (the second one indexed, RGB or text) through BootInformation::framebuffer_tag(): bytes 0..=2 give the known type of that tag, every other byte an error carrying the byte");
     {
